@@ -58,6 +58,7 @@ def check(rep: Report, ctx: Ctx) -> None:
     r512(rep, ctx)
     r513(rep, ctx)
     r514(rep, ctx)
+    r515(rep, ctx)
 
 
 # --------------------------------------------------------------------------
@@ -832,13 +833,10 @@ def _rotation_kind(e: ast.AST, subject: str) -> Optional[str]:
     return None
 
 
-def r510(rep: Report, ctx: Ctx) -> None:
-    rep.rule("R5.10", "the per-path lists of a logic block are rotated in "
-             "lock-step (an index means the same path in every list)", 6)
+def _per_path_lists(ctx: Ctx) -> dict[str, str]:
+    """Attributes of LogicBlockHolder that hold one entry per path."""
     holder = ctx.index.cls("LogicBlockHolder")
     init = holder.lookup("__init__")[0]
-    rot = ctx.func("LogicBlockHolder.rotate_path")
-    rep.seen(init, rot)
     # -- discovery of the per-path lists (independent of rotate_path)
     per_path: dict[str, str] = {"paths": "the paths themselves"}
     for st in ast.walk(init.node):
@@ -863,6 +861,17 @@ def r510(rep: Report, ctx: Ctx) -> None:
                         if n and n != "paths":
                             per_path.setdefault(
                                 n, f"zipped with self.paths in {m.name}")
+    return per_path
+
+
+def r510(rep: Report, ctx: Ctx) -> None:
+    rep.rule("R5.10", "the per-path lists of a logic block are rotated in "
+             "lock-step (an index means the same path in every list)", 6)
+    holder = ctx.index.cls("LogicBlockHolder")
+    init = holder.lookup("__init__")[0]
+    rot = ctx.func("LogicBlockHolder.rotate_path")
+    rep.seen(init, rot)
+    per_path = _per_path_lists(ctx)
     # -- rotations performed by rotate_path
     reach = ctx.reach(rot)
     kinds: dict[str, str] = {}
@@ -1107,3 +1116,113 @@ def r514(rep: Report, ctx: Ctx) -> None:
              "evidence of the loop's boundary (a fork that ends the body is "
              "closed, every entry branch is drawn)", 12)
     loop_boundary_evidence(rep, ctx, "R5.14")
+
+
+# --------------------------------------------------------------------------
+def reshape_lockstep(rep: Report, ctx: Ctx, rule: str) -> None:
+    """(shared: R5.15 / R1.14)  Besides rotation a logic block re-shapes its
+    per-path lists in two places: a finished path is popped, and a partial
+    merge replaces the merged paths by one nested operator node.  In both,
+    index i must keep meaning the same path in every list, and the two index
+    maps into ``logic_node.outgoing_logic`` (`_path_indexes` for the active,
+    `_merged_path_indexes` for the finished paths) must describe the layout
+    the same statement sequence gives to ``outgoing_logic``:
+    [active not merged] + [finished] + [new node].  An index that points at a
+    finished path makes the next merge nest the wrong alternatives: events of
+    the input vanish from the diagram and others are drawn twice."""
+    from .effspec import before, effects, expect
+    per_path = _per_path_lists(ctx)
+    index_maps = {"_path_indexes", "_merged_path_indexes"}
+    # pending triage (DESIGN section 9): impossible_and_or_merges is neither
+    # popped nor rebuilt on the pinned tree
+    lists = sorted(a for a in per_path if a not in index_maps
+                   and a != "impossible_and_or_merges")
+    # ---- pop of a finished path
+    sp = ctx.func("LogicBlockHolder.set_path_node")
+    effs = effects(ctx, sp)
+    g = [("truth", "P:self.paths", "1"), ("truth", "P:pop", "1")]
+    for a in lists:
+        expect(rep, rule, sp, effs, f"a finished path leaves self.{a}",
+               name="pop", recv=f"P:self.{a}", args=(), must=g[1:], may=g)
+    expect(rep, rule, sp, effs, "its position in the logic node moves from "
+           "the active to the finished index map", name="append",
+           recv="P:self._merged_path_indexes",
+           args=("P:self._path_indexes.pop()",), must=g[1:], may=g)
+    # ---- partial merge
+    cm = ctx.func("LogicBlockHolder.create_logic_merge")
+    effs = effects(ctx, cm)
+
+    def sel(op: str) -> str:
+        return "[each(enumerate(P:self.merge_nodes))[0] for.. if " \
+               f"(P:merge_node {op} each(enumerate(P:self.merge_nodes))[1])]"
+    IDX, NOT = sel("Eq"), sel("NotEq")
+    NEW = "Node(operator=P:self.logic_node.operator,outgoing_logic=P:self." \
+          f"logic_node.get_outgoing_logic_by_indices([P:self._path_indexes" \
+          f"[each({IDX})] for..]))"
+    stores = {e.recv: e for e in effs if e.kind == "store" and e.name == ""}
+    for a in lists:
+        e = stores.get(f"P:self.{a}")
+        want = f"([P:self.{a}[each({NOT})] for..] Add ["
+        ok = e is not None and e.args[0].startswith(want) and \
+            e.args[0].endswith("])")
+        rep.ob(rule, f"partial merge keeps self.{a} in step: the entries of "
+               "the paths that are not merged, then one entry for the new "
+               "node", ok, fi=cm, node=e.node if e else cm.node,
+               detail=(e.args[0][:200] if e else "not rebuilt by "
+                       "create_logic_merge"))
+    e = stores.get("P:self.paths")
+    ok = e is not None and e.args[0] == f"([P:self.paths[each({NOT})] " \
+        f"for..] Add [{NEW}])"
+    rep.ob(rule, "the new path is a nested node of the block's operator over "
+           "exactly the merged alternatives", ok, fi=cm,
+           node=e.node if e else cm.node,
+           detail=e.args[0][:300] if e else "<missing>")
+    lay = expect(rep, rule, cm, effs, "outgoing logic is laid out as [active "
+                 "not merged] + [finished] + [new node]",
+                 name="set_outgoing_logic", recv="P:self.logic_node",
+                 args=(f"(P:self.logic_node.get_outgoing_logic_by_indices(("
+                       f"[P:self._path_indexes[each({NOT})] for..] Add "
+                       f"P:self._merged_path_indexes)) Add [{NEW}])",),
+                 any_guard=True)
+    a_len, m_len = f"len({NOT})", "len(P:self._merged_path_indexes)"
+    pi = [e for e in effs if e.kind == "store"
+          and e.recv == "P:self._path_indexes"]
+    forms = [(e.name, e.args[0]) for e in pi]
+    ok = forms in (
+        [("", f"list(range({a_len}))"),
+         ("Add", f"[({a_len} Add {m_len})]")],
+        [("", f"(list(range({a_len})) Add [({a_len} Add {m_len})])")])
+    rep.ob(rule, "active index map = positions of that layout: 0..a-1 for "
+           "the paths kept, a+m for the new node (a kept, m finished)", ok,
+           fi=cm, node=pi[0].node if pi else cm.node,
+           detail="; ".join(f"_path_indexes {n or '='} {v}"[:160]
+                            for n, v in forms) or "<not assigned>")
+    mi = [e for e in effs if e.kind == "store"
+          and e.recv == "P:self._merged_path_indexes"]
+    ok = [(e.name, e.args[0]) for e in mi] == [
+        ("", f"list(range({a_len},({a_len} Add {m_len})))")]
+    rep.ob(rule, "finished index map = a..a+m-1", ok, fi=cm,
+           node=mi[0].node if mi else cm.node,
+           detail="; ".join(e.args[0][:160] for e in mi) or "<not assigned>")
+    # the old maps are read before they are overwritten
+    reads = [c for c in ast.walk(cm.node) if isinstance(c, ast.Call)
+             and dotted(c.func) == "len" and c.args
+             and _self_attr(c.args[0]) == "_merged_path_indexes"]
+    if mi and reads:
+        rep.ob(rule, "the number of finished paths is taken before the "
+               "finished index map is overwritten",
+               all(before(ctx, cm, r, mi[0].node) for r in reads), fi=cm,
+               node=reads[0], detail="len(self._merged_path_indexes)")
+    if lay is not None and pi:
+        rep.ob(rule, "the layout is built from the old index maps (before "
+               "they are overwritten)", before(ctx, cm, lay.node, pi[0].node)
+               and (not mi or before(ctx, cm, lay.node, mi[0].node)), fi=cm,
+               node=lay.node, detail="set_outgoing_logic(..) precedes the "
+               "stores of _path_indexes / _merged_path_indexes")
+
+
+def r515(rep: Report, ctx: Ctx) -> None:
+    rep.rule("R5.15", "popping a finished path and merging paths partially "
+             "keep the per-path lists and the index maps of a logic block "
+             "consistent", 12)
+    reshape_lockstep(rep, ctx, "R5.15")
